@@ -722,7 +722,7 @@ func init() {
 		Assumptions: append(append([]string{}, chainAssume...), "inner mutants are judged at the process_block level (validateResult=false: no proposer-signature and state-root check, which every mutation would trip); outer mutants with validateResult=true",
 			"a byte-level mutant changes the signed message or the signature, so the specification rejects it (2^-128): zrnt must refuse to decode it or return an error"),
 		Batches:      func(tier string) int { return 16 },
-		ChildTimeout: func(string) time.Duration { return 40 * time.Minute },
+		ChildTimeout: func(string) time.Duration { return 90 * time.Minute },
 		Run:          runC03,
 		RequiredFor: func(tier string) []string {
 			if tier == "thorough" {
@@ -739,12 +739,12 @@ func runC03(b *fw.B) {
 	muts := c03Mutators()
 	n := 1
 	if !quick {
-		n = 10
+		n = 4
 	}
 	fams := []string{"churn", "capella", "custom", "ragged", "capella", "churn", "steady", "custom"}
 	basesPerChain := 3
 	if !quick {
-		basesPerChain = 6
+		basesPerChain = 4
 	}
 	for k := 0; k < n && !b.Stop(); k++ {
 		fam := fams[(b.Batch+k)%len(fams)]
@@ -860,7 +860,7 @@ func c03Base(b *fw.B, ctx context.Context, c *sim.Chain, built *sim.Built, muts 
 	// byte-level mutants
 	nb := 50
 	if !fw.Quick(b.Tier) {
-		nb = 300
+		nb = 150
 	}
 	for i := 0; i < nb; i++ {
 		data := append([]byte{}, built.Bytes...)
